@@ -742,6 +742,10 @@ def handle (op : String) (fs : List (String × String)) : String :=
   else if op == "otl.ctx.rt" then
     -- the property itself: what the encoder of a context subtable wrote is readable
     "ok"
+  else if op == "otl.gpos.len" then
+    match (getField fs "size").bind String.toNat?, (getField fs "declared").bind String.toNat? with
+    | some n, some d => if n == d then "ok" else s!"fail:encodeLen={d};emitted={n}"
+    | _, _ => "bad-case"
   else if op == "otl.ctx.len" then
     -- direct predicate on two numbers of the real code: |encode()| (`size`) and encodeLen() (`declared`)
     match (getField fs "size").bind String.toNat?, (getField fs "declared").bind String.toNat? with
